@@ -12,7 +12,7 @@ from ..driver import run_function
 from ..front import repo
 from ..oblig import PROVED, REFUTED, UNKNOWN, UNSUPPORTED, Obligation
 from ..smt import FALSE, TRUE, disj
-from ..values import Dyn, IteA, IteV, JoinA, K, Lit, QuoteA, S, Sym
+from ..values import Dyn, IteA, IteV, JoinA, K, Lit, OpA, QuoteA, S, Sym
 from .base import parallel
 from .positions import generate_for, shape_of
 from .render import eval_spec, same_value
@@ -45,6 +45,11 @@ def collapse(ex, atoms, pc):
                 out.extend(collapse(ex, a.b, pc))
             else:
                 out.append(a)
+        elif isinstance(a, QuoteA):
+            out.append(QuoteA(tuple(collapse(ex, a.inner, pc)), a.q))
+        elif isinstance(a, OpA):
+            out.append(OpA(a.op, tuple(S(tuple(collapse(ex, x.atoms, pc))) if isinstance(x, S) else x
+                                       for x in a.args)))
         else:
             out.append(a)
     return out
